@@ -447,16 +447,19 @@ def chord(grid, o, u, delta=DELTA):
 
 
 # ------------------------------------------------------------------------------------------------ per-source bounds
-def step_count(length, step, min_samples=2):
-    """the documented n = max(min_samples, int(length / step))."""
-    return max(min_samples, int(length / step))
+def step_count(length, step, min_samples=2, scheme="midpoint"):
+    """midpoint (cherab ray-transfer integrators): n = max(min_samples, int(length / step)) samples;
+    trapezium (raysect NumericalIntegrator): max(min_samples - 1, floor(length / step)) intervals."""
+    if scheme == "midpoint":
+        return max(min_samples, int(length / step))
+    return max(min_samples - 1, int(math.floor(length / step)))
 
 
 class Bounds:
     pass
 
 
-def bounds(ch, vmap, nbins, step, delta=DELTA):
+def bounds(ch, vmap, nbins, step, delta=DELTA, min_samples=2, scheme="midpoint"):
     """Interval oracle for one ray and one voxel map (int array of the grid shape, -1 = inactive).
 
     lo[s] / hi[s]      certain / possible chord length inside source s
@@ -493,10 +496,11 @@ def bounds(ch, vmap, nbins, step, delta=DELTA):
     sch_hi = np.zeros(nbins)
     for seg in ch.segs:
         L, w = seg["L"], seg["w"] + delta
-        n_lo, n_hi = step_count(max(L - w, 0.0), step), step_count(L + w, step)
-        maybe_skipped = (L - w) < 0.1 * step
-        surely_skipped = (L + w) < 0.1 * step
-        dt = 1.5 * step if ch.ambiguous_segmentation else (L + w) / n_lo
+        n_lo, n_hi = step_count(max(L - w, 0.0), step, min_samples, scheme), step_count(L + w, step, min_samples, scheme)
+        skip_below = 0.1 * step if scheme == "midpoint" else 0.0       # the trapezium integrator only skips length == 0
+        maybe_skipped = (L - w) < skip_below or (L - w) <= 0.0
+        surely_skipped = (L + w) < skip_below
+        dt = (1.5 if scheme == "midpoint" else 2.0) * step if ch.ambiguous_segmentation else (L + w) / n_lo
         B.dt_all = max(B.dt_all, dt)
         rng = range(seg["e0"], seg["e1"] + 1)
         prev_hi, prev_lo = set(), set()
@@ -548,16 +552,24 @@ def bounds(ch, vmap, nbins, step, delta=DELTA):
                 n = n_lo
                 dts = L / n
                 eta = w
-                ts = seg["t1"] - (np.arange(n) + 0.5) * dts
+                if scheme == "midpoint":
+                    ts = seg["t1"] - (np.arange(n) + 0.5) * dts
+                    wts = np.ones(n)
+                else:
+                    ts = seg["t1"] - np.arange(n + 1) * dts
+                    wts = np.ones(n + 1)
+                    wts[0] = wts[-1] = 0.5
                 ia = np.searchsorted(ch.tb, ts - eta, side="right") - 1
                 ib = np.searchsorted(ch.tb, ts + eta, side="right") - 1
                 ia = np.clip(ia, 0, npieces - 1)
                 ib = np.clip(ib, 0, npieces - 1)
                 sure = (ia == ib) & (single[ia] > -2)
                 sv = single[ia[sure]]
+                sw = wts[sure]
+                sw = sw[sv >= 0]
                 sv = sv[sv >= 0]
                 if sv.size:
-                    cnt = np.bincount(sv, minlength=nbins) * dts
+                    cnt = np.bincount(sv, weights=sw, minlength=nbins) * dts
                     sch_lo += cnt
                     sch_hi += cnt
                 for k in np.nonzero(~sure)[0]:
@@ -567,12 +579,12 @@ def bounds(ch, vmap, nbins, step, delta=DELTA):
                     if len(un) == 1:
                         v = next(iter(un))
                         if v >= 0:
-                            sch_lo[v] += dts
-                            sch_hi[v] += dts
+                            sch_lo[v] += dts * wts[k]
+                            sch_hi[v] += dts * wts[k]
                     else:
                         for v in un:
                             if v >= 0:
-                                sch_hi[v] += dts
+                                sch_hi[v] += dts * wts[k]
     if B.scheme_skip is None:
         B.sch_lo, B.sch_hi = sch_lo, sch_hi
     else:
